@@ -1,6 +1,7 @@
 package gossipsim
 
 import (
+	"crypto/sha256"
 	"bytes"
 	"context"
 	"fmt"
@@ -778,11 +779,64 @@ func (s *Sim) send(w []byte, label string) *pending {
 	default:
 		p = cands[r.Draw(len(cands))]
 	}
+	// One message in four comes straight from the node it speaks for (the
+	// announced node of a node_announcement, the signer slot of a
+	// channel_update's direction, node 1 of a channel_announcement): a peer
+	// whose identity key IS that node's key - the usual case on the real
+	// network. Decided by the message bytes, not by a draw (the draw above
+	// is still made).
+	if np := s.originPeer(msg, w); np != nil {
+		p = np
+		r.Count("probe_delivered_by_the_node_the_message_speaks_for")
+	}
 	s.remember(w, label)
 	s.curWires[string(w)] = true
 	logf(r, "#%d %s delivers [%s]", s.step, p.name, label)
 	r.Count("delivered")
 	return &pending{d: s.w.Deliver(p, msg), label: label, peer: p.name, bufKey: bufKey}
+}
+
+// originPeer returns the peer whose identity is the node the message speaks
+// for, for one message in four; nil otherwise, if that node is ours or
+// unknown to the universe, or if that peer has been disconnected.
+func (s *Sim) originPeer(msg lnwire.Message, w []byte) *simPeer {
+	h := sha256.Sum256(w)
+	if h[0]%4 != 0 {
+		return nil
+	}
+	var pub [33]byte
+	switch m := msg.(type) {
+	case *lnwire.NodeAnnouncement1:
+		pub = m.NodeID
+	case *lnwire.ChannelAnnouncement1:
+		pub = m.NodeID1
+	case *lnwire.ChannelUpdate1:
+		for _, c := range s.u.chans {
+			if c.scid == m.ShortChannelID {
+				pub = c.n[int(m.ChannelFlags&lnwire.ChanUpdateDirection)].pub
+			}
+		}
+	default:
+		return nil
+	}
+	var n *uNode
+	for _, c := range append(append([]*uNode{}, s.u.nodes...), s.u.stranger) {
+		if c.pub == pub {
+			n = c
+		}
+	}
+	if n == nil || pub == s.w.self.pub {
+		return nil
+	}
+	if cp := s.w.chanPeerByKey(pub); cp != nil {
+		// the remote end of one of our own channels has its own peer object
+		return nil
+	}
+	np := s.w.nodePeer(n)
+	if np.dropped {
+		return nil
+	}
+	return np
 }
 
 func (s *Sim) report(p *pending) {
@@ -817,12 +871,27 @@ func (s *Sim) deliverOne(w []byte, label string) string {
 		s.w.failWrites(n)
 		armed = true
 	}
+	// One channel_announcement in six meets a chain backend whose GetUtxo
+	// fails with an I/O error (decided by the message bytes, no draw): an
+	// announcement whose funding output could not be looked up must not
+	// enter the graph on the strength of the block alone.
+	utxoFault := len(w) > 2 && int(w[0])<<8|int(w[1]) == typeChanAnn && sha256.Sum256(w)[1]%6 == 0
+	if utxoFault {
+		s.w.chain.FailUtxo(true)
+	}
 	p := s.send(w, label)
 	s.w.settle()
 	if p != nil {
 		s.report(p)
 	}
 	what := "after delivery of [" + label + "]"
+	if utxoFault {
+		if fired := s.w.chain.FailUtxo(false); fired > 0 {
+			logf(r, "  (%d GetUtxo call(s) failed with an injected I/O error)", fired)
+			r.Add("fault_chain_getutxo_io_error", int64(fired))
+			what += fmt.Sprintf(" with %d failed GetUtxo call(s)", fired)
+		}
+	}
 	if armed {
 		if fired := s.w.stopFailing(); fired > 0 {
 			logf(r, "  (%d graph database write(s) failed with an injected I/O error)", fired)
